@@ -50,4 +50,18 @@ CLAIMED = {
         note="Not decided: torn writes, directory durability inside atomic-write-file (trusted), whether the file opens after loss. Reviewed exemption: the WAL end sentinel. "
              "recover_wal's empty-log branch (re-derivable Tantivy flush) is out of scope by rule.",
         design_ref="DESIGN.md §4 C03"),
+    "C04": dict(
+        technique="MIR must-pass-through on the replay branch of recover_wal + guard-edge (inequality) dominance in open_locked",
+        text="Partial (idempotence link): the branch of recover_wal that applied pending records returns Ok only through apply_records -> record_checkpoint -> "
+             "persist_header(self.header) -> sync_all, so the advanced wal_sequence is durable before the open returns and a second open cannot replay the same "
+             "records; open_locked rewrites the header on the TOC-recovery arm only under the differs-from-stored test, with the recovered values.",
+        note="Not decided: crashes *during* recovery (crash points), nested recovery; equality of the recovered state with an uninterrupted recovery.",
+        design_ref="DESIGN.md §4 C04"),
+    "C06": dict(
+        technique="crate-wide who-may-mutate scan of Toc.frames (resolved callees through &mut borrows) + data-dependence of Frame.id + must-pass-through for the pending counter",
+        text="Partial: Toc.frames is structurally mutated at exactly one site (push in apply_records; every other &mut use is element access; never replaced; Frame.id never "
+             "stored; Frame constructed only at reviewed sites), the pushed id is toc.frames.len() re-read in the same loop iteration, every successful insert append in "
+             "put_internal increments pending_frame_inserts before the next append/Ok, the counter is reset only after apply_records, next_frame_id reads len + counter only.",
+        note="Not decided: equality of next_frame_id() with the id later assigned across auto-checkpoints and reopen (value reasoning over histories).",
+        design_ref="DESIGN.md §4 C06"),
 }
